@@ -1077,15 +1077,15 @@ RLIMIT_PER_MS = 1300          # calibrated: z3 consumes about 1.2-1.3 million re
 
 def _check(assumptions, goal, timeout_ms, seed=0):
     """budgets are given in (nominal) milliseconds but enforced through z3's deterministic resource limit, so that verdicts do
-    not depend on how busy the machine is; the wall-clock timeout is only a generous backstop"""
-    s = z3.Solver(); s.set('rlimit', int(timeout_ms * RLIMIT_PER_MS)); s.set('timeout', int(max(5000, timeout_ms * 15)))
+    not depend on how busy the machine is; the wall-clock timeout (4x) is a backstop, needed because z3's non-linear procedures do not always honour rlimit"""
+    s = z3.Solver(); s.set('rlimit', int(timeout_ms * RLIMIT_PER_MS)); s.set('timeout', int(max(4000, timeout_ms * 4)))
     if seed: s.set('random_seed', seed)
     s.add(*assumptions); s.add(z3.Not(goal))
     r = s.check()
     return str(r), (s.reason_unknown() if r == z3.unknown else '')
 
 
-PAIR_TIMEOUT_MS = 400
+PAIR_TIMEOUT_MS = 150
 
 
 def sum_facts(ob, reg, alg, depth=1, pair_timeout_ms=None):
@@ -1148,19 +1148,14 @@ def discharge(ob, reg, alg, timeout_ms=20000, extra=(), depth=1, seed=0, pair_ti
         ante = []
         while z3.is_implies(g): ante.append(g.arg(0)); g = g.arg(1)           # antecedents of the goal become hypotheses
         goals.append((ante, g))
-    # fast path: many obligations (index bounds, frames, entry conditions) need no Sum reasoning at all
-    pending = []
+    # conjuncts are proved in order; every proven conjunct becomes a hypothesis for the later ones (e.g. z[d] is computed from the
+    # y[d] written just before).  Fast path first: many obligations need no Sum reasoning at all.
     for (ante, g) in goals:
         v, w = _check(base + ante, g, 1500 if ob.nsums else timeout_ms, seed)
-        if v != 'unsat': pending.append((ante, g, v, w))
-    if not pending: return 'unsat', time.time() - t, ''
-    if not ob.nsums: return pending[0][2], time.time() - t, pending[0][3]
-    verdict, why = 'unsat', ''
-    for (ante, g, _, _) in pending:
-        ob2 = Obligation(ob.name, g, list(ob.assume) + ante, ob.nsums, ob.kind, ob.axioms)
-        facts = sum_facts(ob2, reg, alg, depth, pair_timeout_ms)
-        v, w = _check(base + ante + facts, g, timeout_ms, seed)
-        if v != 'unsat':
-            verdict, why = v, w
-            break
-    return verdict, time.time() - t, why
+        if v != 'unsat' and ob.nsums:
+            ob2 = Obligation(ob.name, g, list(ob.assume) + [b_ for b_ in base[len(ob.assume) + len(ob.axioms) + len(extra):]] + ante, ob.nsums, ob.kind, ob.axioms)
+            facts = sum_facts(ob2, reg, alg, depth, pair_timeout_ms)
+            v, w = _check(base + ante + facts, g, timeout_ms, seed)
+        if v != 'unsat': return v, time.time() - t, w
+        base.append(z3.Implies(z3.And(*ante), g) if ante else g)
+    return 'unsat', time.time() - t, ''
